@@ -21,7 +21,9 @@
 package binary
 
 import (
+	"bytes"
 	"fmt"
+	"io"
 
 	"go.uber.org/thriftrw/protocol/stream"
 	"go.uber.org/thriftrw/wire"
@@ -101,13 +103,23 @@ func (sw *StreamReader) ReadEnvelopeBegin() (stream.EnvelopeHeader, error) {
 func (sw *StreamReader) readNonStrictEnvelope(length int32) (stream.EnvelopeHeader, error) {
 	var eh stream.EnvelopeHeader
 
-	buf := make([]byte, length)
-	for i := int32(0); i < length; i++ {
-		i8, err := sw.ReadInt8()
-		if err != nil {
+	// The length comes from the wire: like ReadBinary, don't allocate more
+	// than bytesAllocThreshold before the bytes have actually arrived.
+	var buf []byte
+	if length > bytesAllocThreshold {
+		var b bytes.Buffer
+		if _, err := io.CopyN(&b, sw.reader, int64(length)); err != nil {
+			if err == io.EOF {
+				err = io.ErrUnexpectedEOF
+			}
 			return eh, err
 		}
-		buf[i] = byte(i8)
+		buf = b.Bytes()
+	} else {
+		buf = make([]byte, length)
+		if _, err := sw.read(buf); err != nil {
+			return eh, err
+		}
 	}
 
 	typ, err := sw.ReadInt8()
